@@ -7,7 +7,7 @@ BASE = dict(NJobs=2, Procs=2, MaxPid=3, MaxTime=3, PoolSoft=0, PoolHard=0,
             JobLimits=[(0, 0)], Grace=1, Quota=0, PutLocks=True, MaxR=0, MaxT=1,
             Statuses=[-9], Results=['ok', 'err'], MaxDup=0, UserCalls=[], Periodic=False,
             DevRemark=False, DevShrinkSame=False, FineScan=False, DevSoftNoReady=False, TolLateAckStatus=True, TolLateReadySlot=True,
-            DevNoCreditLate=True)
+            DevNoCreditLate=True, HookPause=False)
 
 
 def tla_consts(c):
@@ -93,17 +93,21 @@ SCEN = {
                      UserCalls=U_ALL),
             small=[cfg(NJobs=1, Procs=2, MaxPid=3, MaxTime=0, Statuses=[-9], Results=['ok'],
                        UserCalls=['Grow', 'Shrink']),
+                   cfg(NJobs=0, Procs=2, MaxPid=3, MaxTime=0, Statuses=[-9], Results=['ok'],
+                       UserCalls=['Grow', 'Shrink'], HookPause=True),
                    cfg(NJobs=1, Procs=1, MaxPid=2, MaxTime=1, Statuses=[-9], Results=['ok'],
                        UserCalls=['Discard', 'TerminateJob', 'Close'])],
-            walks=cfg(NJobs=3, Procs=2, MaxPid=5, MaxTime=3, Statuses=[-9, 1], UserCalls=U_ALL)),
+            walks=cfg(NJobs=3, Procs=2, MaxPid=5, MaxTime=3, Statuses=[-9, 1], UserCalls=U_ALL,
+                      HookPause=True)),
         thorough=dict(
             wide=cfg(NJobs=2, Procs=2, MaxPid=3, MaxTime=1, Statuses=[-9], Results=['ok'],
                      UserCalls=U_ALL),
             small=[cfg(NJobs=1, Procs=2, MaxPid=3, MaxTime=1, Statuses=[-9], Results=['ok'],
-                       UserCalls=['Grow', 'Shrink', 'TerminateJob']),
+                       UserCalls=['Grow', 'Shrink', 'TerminateJob'], HookPause=True),
                    cfg(NJobs=2, Procs=1, MaxPid=2, MaxTime=1, Statuses=[-9], Results=['ok'],
                        UserCalls=['Discard', 'TerminateJob', 'Close'])],
-            walks=cfg(NJobs=3, Procs=2, MaxPid=6, MaxTime=4, Statuses=[-9, 1], UserCalls=U_ALL))),
+            walks=cfg(NJobs=3, Procs=2, MaxPid=6, MaxTime=4, Statuses=[-9, 1], UserCalls=U_ALL,
+                      HookPause=True))),
     'limits': dict(
         serves=['C05', 'C06', 'C01', 'C10'],
         quick=dict(
